@@ -79,8 +79,9 @@ impl Params {
         match prop {
             "C04" => Params {
                 keys: r.range(4, 14) as u32,
-                commits: r.range(2, 4) as u32,
-                readers: r.range(1, 2) as u32,
+                // beyond the stated bound (two readers, four commits) in one run out of six
+                commits: if r.chance(1, 6) { r.range(5, 7) as u32 } else { r.range(2, 4) as u32 },
+                readers: if r.chance(1, 6) { 3 } else { r.range(1, 2) as u32 },
                 writers: 1,
                 rounds: r.range(1, 2) as u32,
                 rereads: r.range(1, 3) as u32,
